@@ -6,7 +6,7 @@ exactly once with no later use, no use of a request after a call that may retire
 lines inert.  Not decided: memory safety at large, termination, chunking independence."""
 from ..facts import AnalysisBroken
 from ..model import sx, walk, is_var, const_of, root_var, vars_in, on_path
-from .. import rules, bnd, uar
+from .. import rules, bnd, uar, core
 from ..report import Remap
 
 EXPLANATION = (
@@ -681,7 +681,7 @@ def kept_names_are_owned(P, R, rule='C08.OWN.1'):
                 rv = root_var(ev['lhs'])
                 if rv is not None and rv.get('sc') not in ('local', 'param'):
                     keepers.append(s)
-    ld = P.need_fn('module_load')
+    ld = core.module_loader(P)
     ctor = None
     for s in ld.calls('dlsym'):
         a = s.ev['args']
